@@ -18,6 +18,10 @@ pub struct Rule { _opaque: u8 }
 #[verifier::external_body]
 pub struct Error { _opaque: u8 }
 
+// std functions a small edit of the driver loops is likely to reach for (trusted std contracts; unused on the pinned tree)
+pub assume_specification<T, E>[ Result::<T, E>::unwrap_or ](r: Result<T, E>, d: T) -> (o: T)
+    ensures o == (match r { Ok(t) => t, Err(_) => d });
+
 pub uninterp spec fn ap(r: Rule, w: Word) -> Result<Word, Error>;
 pub uninterp spec fn weq(a: Word, b: Word) -> bool;
 
